@@ -159,7 +159,7 @@ JoinPre == /\ root \in nodes /\ Cardinality(OutE(edges, directed, root)) = 2
            /\ \A e \in OutE(edges, directed, root) : edges[e][1] # edges[e][2]
 JoinSafe == LET S == OutN(edges, directed, root) IN            \* outside: cases the statement does not cover
               /\ ~(directed /\ Reciprocal(edges))
-              /\ \A a, b \in S : ~Adjacent(edges, a, b)
+              /\ \A a, b \in S : a # b => ~Adjacent(edges, a, b)
 UnRootJoinOk(a) ==
   /\ JoinPre /\ JoinSafe /\ nextE < MaxE /\ a \in OutN(edges, directed, root)
   /\ LET b == CHOOSE x \in OutN(edges, directed, root) : x # a
